@@ -167,7 +167,9 @@ def _brief(env, out):
 
 OOB = [("Int", True, [("Int", (1,))]), ("Int", 1.0, [("Int", (1,))]), ("Int", Fraction(2), [("Int", (2,))]),
        ("Real", True, [("Real", (1,))]), ("Int", False, [("Int", (0,))]), ("String", 1, [("String", ("1",))]),
-       ("Real", "1", [("Real", (1,))]), ("Int", "0", [("Int", (0,))])]
+       ("Real", "1", [("Real", (1,))]), ("Int", "0", [("Int", (0,))]),
+       ("Real", (3.0, 4.0), [("Real", ((3, 4),))]), ("Real", (True, 4), [("Real", ((1, 4),))]),
+       ("Real", (Fraction(3), 4), [("Real", ((3, 4),))])]
 
 
 def gen_case(rnd):
